@@ -60,3 +60,11 @@ package layout
 //@   loop 0:
 //@     invariant len(group) >= 2
 //@     invariant forall k int :: {group[k]} 1 <= k && k < $i + 1 ==> abs(group[k].Y - group[0].Y) <= d.config.PositionTolerance && abs(group[k].X - group[0].X) <= d.config.XPositionTolerance
+
+// ---- C09: line detection neither loses, invents nor duplicates fragments (wsum/lsum: see package text) ----
+//@ func (*LineDetector) groupIntoLines results (res)
+//@   property C09
+//@   flags readonly
+//@   ensures conserved: lsum(res, len(res)) == wsum(fragments, len(fragments))
+//@   loop 0:
+//@     invariant lsum(lines, len(lines)) + wsum(currentLine, len(currentLine)) == wsum(sorted, $i)
